@@ -7,9 +7,46 @@ import subprocess
 import common
 
 KINDS = {
+    'C08': ['lossless'], 'C11': ['quant'],
     'C03': ['new'], 'C13': ['new'], 'C04': ['corrupt', 'new', 'scan'], 'C05': ['scan', 'iter', 'new'], 'C06': ['chunks', 'scan', 'new'],
 }
 _bin = None
+
+
+def gen_fields():
+    """Table of all data fields for the native search, from the expanded source (names and value types only;
+    robust against changes of the field bodies)."""
+    import re
+    exp = common.expanded_source()
+    dfs = exp.find(['df', 'dfs'])
+    try:
+        import dfinv
+        inv = {f.name: f for f in dfinv.fields()[0]}
+    except Exception:
+        inv = {}
+    rows = []
+    for c in dfs.children:
+        if c.kind != 'mod':
+            continue
+        txt = exp.text[c.start:c.end]
+        m = re.search(r'pub type DataType\s*=\s*([^;]+);', txt)
+        if not m:
+            continue
+        dt = re.sub(r'\s+', '', m.group(1))
+        base = dt[7:-1] if dt.startswith('Option<') else dt
+        if base not in ('u8', 'u16', 'u32', 'u64', 'usize', 'i8', 'i16', 'i32', 'i64', 'f32', 'f64'):
+            continue
+        f = inv.get(c.name)
+        sm = 'true' if (f is not None and f.kind == 'sm') or re.search(r'parse::<SM\d+>', txt) else 'false'
+        n = c.name
+        rows.append('FieldOps { name: "%s", is_float: %s, optional: %s, sm: %s, f32: %s,\n'
+                    '  dec: |d| mk_dec::<%s>(dfs::%s::decode, d),\n'
+                    '  dec_enc: |d| mk_dec_enc::<%s>(dfs::%s::decode, dfs::%s::encode, d),\n'
+                    '  enc_f64: |x| mk_enc::<%s>(dfs::%s::encode, &<%s as FieldVal>::from_f64(x)),\n'
+                    '  enc_absent: || <%s as FieldVal>::absent().map(|v| mk_enc::<%s>(dfs::%s::encode, &v)) },'
+                    % (n, 'true' if base in ('f32', 'f64') else 'false', 'true' if dt.startswith('Option<') else 'false', sm,
+                       'true' if base == 'f32' else 'false', dt, n, dt, n, n, dt, n, dt, dt, dt, n))
+    return ('use crate::fields::*;\nuse rtcm_rs::verif_hook::dfs;\n#[allow(unused)]\npub fn all() -> Vec<FieldOps> { vec![\n%s\n] }\n' % '\n'.join(rows))
 
 
 def build():
@@ -20,6 +57,7 @@ def build():
     if os.path.exists(d):
         shutil.rmtree(d)
     shutil.copytree(os.path.join(common.VERIF, 'replay', 'src'), os.path.join(d, 'src'))
+    open(os.path.join(d, 'src', 'fields_gen.rs'), 'w').write(gen_fields())
     t = open(os.path.join(common.VERIF, 'replay', 'Cargo.toml.tmpl')).read().replace('@REPO@', common.REPO)
     open(os.path.join(d, 'Cargo.toml'), 'w').write(t)
     lock = os.path.join(common.REPO, 'Cargo.lock')
@@ -41,15 +79,21 @@ def run_search(kinds, seed, budget):
             if ln.startswith('FOUND '):
                 hit = json.loads(ln[6:])
                 # re-run the input against the real code to confirm
-                q = subprocess.run([b, 'rerun', hit['kind'], hit['input_hex'], ','.join(str(c) for c in hit.get('cuts', []))],
-                                   capture_output=True, text=True)
+                args = rerun_args(hit)
+                q = subprocess.run([b] + args, capture_output=True, text=True)
                 hit['rerun'] = q.stdout.strip()
-                hit['rerun_cmd'] = 'replay rerun %s %s %s' % (hit['kind'], hit['input_hex'], ','.join(str(c) for c in hit.get('cuts', [])))
+                hit['rerun_cmd'] = 'replay ' + ' '.join(args)
                 if q.returncode == 1:
                     return hit, evals
             if ln.startswith('NONE'):
                 evals += int(ln.split('=')[1])
     return None, evals
+
+
+def rerun_args(hit):
+    if hit.get('field'):
+        return ['rerun', hit['kind'], hit['field'], hit['input_hex']]
+    return ['rerun', hit['kind'], hit['input_hex'], ','.join(str(c) for c in hit.get('cuts', []))]
 
 
 def search(pid, failed, tier, seed):
@@ -62,6 +106,6 @@ def search(pid, failed, tier, seed):
 
 def rerun(pid, fi):
     b = build()
-    q = subprocess.run([b, 'rerun', fi['kind'], fi['input_hex'], ','.join(str(c) for c in fi.get('cuts', []))], capture_output=True, text=True)
+    q = subprocess.run([b] + rerun_args(fi), capture_output=True, text=True)
     print(q.stdout.strip())
     return q.returncode == 0
